@@ -4,16 +4,33 @@ from mirsym.values import *
 from props.broker import *
 
 
-def owner_shapes(halves, max_tiles_per_half):
-    """alternating owner sequences over `halves` halves, each half owning 1..max tiles"""
+def owner_shapes(halves, max_tiles_per_half, max_len=None):
+    """alternating owner sequences over `halves` halves, each half owning 1..max tiles (at most max_len tiles in all)"""
     out = []
     def rec(seq, counts):
         if all(c >= 1 for c in counts): out.append(list(seq))
+        if max_len is not None and len(seq) >= max_len: return
         for h in range(halves):
             if seq and seq[-1] == h: continue
             if counts[h] >= max_tiles_per_half: continue
             counts[h] += 1; seq.append(h); rec(seq, counts); seq.pop(); counts[h] -= 1
     rec([], [0] * halves)
+    return out
+
+
+def sample_shapes(halves, extra_max, n, rnd):
+    """n distinct owner sequences drawn with rnd: a permutation of the halves with up to extra_max further tiles inserted
+    (no two neighbouring tiles of one owner, at most 2 tiles per half); the identity permutation is always first"""
+    out = [list(range(halves))]; seen = {tuple(out[0])}
+    for _ in range(50 * n):
+        if len(out) >= n: break
+        seq = list(range(halves)); rnd.shuffle(seq)
+        for _k in range(rnd.randint(0, extra_max)):
+            h = rnd.randrange(halves); pos = rnd.randint(0, len(seq))
+            if seq.count(h) >= 2: continue
+            if (pos > 0 and seq[pos - 1] == h) or (pos < len(seq) and seq[pos] == h): continue
+            seq.insert(pos, h)
+        if tuple(seq) not in seen: seen.add(tuple(seq)); out.append(seq)
     return out
 
 
@@ -93,8 +110,12 @@ def scale_jobs(ctx, quick_pairs=((1, 2), (2, 1)), thorough_pairs=((1, 2), (2, 1)
     for (a, bb) in (quick_pairs if quick else thorough_pairs):
         halves = 2 * a
         maxt = 2 if (quick or a > 1) else 3
-        shapes = owner_shapes(halves, maxt)
-        if a >= 2: shapes = [s for s in shapes if len(s) <= halves + (1 if quick else 2)]
+        extra = 1 if quick else 2
+        if halves >= 6:
+            # enumerating every owner sequence is out of reach from 3 chunks on (10 halves: > 10! sequences): draw them directly
+            shapes = sample_shapes(halves, extra, 40, rnd)
+        else:
+            shapes = owner_shapes(halves, maxt, halves + extra if a >= 2 else None)
         base = list(range(halves))
         cap = 6 if quick else 12
         if len(shapes) > cap:
